@@ -99,8 +99,31 @@ PROPS["C13"] = dict(level="exploration", race=False, tiers={
     "thorough": [dict(variant="", runs=50000, budget_s=3300)],
 })
 
-RULES = {}
-ASSUME = {}
+GENERIC_RULE = ("one evaluation = one simulated run: a plan drawn from (VERIF_SEED, run index) and executed on the instrumented copy of the "
+                "current tree; non-trivial = at least two tasks were runnable at some scheduler step, or at least one injected fault fired; "
+                "distinct = distinct (scheduler trace hash, workload/configuration shape) pairs among the non-trivial runs. ")
+RULES = {
+    "C01": GENERIC_RULE + "Plan = opening set (n, index pattern, polynomial classes, pointer sharing, commitment representations, label) + prover scheduler config + verifier scheduler config (independent simulated CPU counts) + wire chunking.",
+    "C02": GENERIC_RULE + "Plan = honest opening set + ONE message fault (byte flip/replace, D/L_j/R_j/a replaced by a random valid value or spliced from a second in-flight proof, C_i/z_i/y_i changed, swap/dup/drop, label, shape, representation-only, noise) + verifier scheduler config. Non-trivial additionally requires a fault other than 'none'.",
+    "C03": GENERIC_RULE + "Plan = one opening set (or one IPA opening) proved under k>=4 configurations (simulated CPU count, schedule policy, commitment representations, pool/map decisions, history prefix); one evaluation = one opening set, i.e. k simulations plus one reference proof.",
+    "C09": GENERIC_RULE + "Plan = (API level, n, NbTasks, Montgomery flag, scalar class mix, point class mix, optional length mismatch; for the internal entry point also window width c and split mode) + scheduler config.",
+    "C10": "one evaluation = one (input, reader/writer behaviour) case; input class in {honest, field-wise boundary substitution, bit flip, random, truncated, trailing}; non-trivial = the input is not the honest one or a reader/writer fault fired or the stream was chunked/EOF came with data; distinct = distinct (kind, input class, length, flip offset, chunking, EOF style, fault kind+offset, writer call+mode) tuples. Quick samples; the thorough 'enum' stage enumerates every offset, field, length and writer call.",
+    "C12": GENERIC_RULE + "Plan = 2..8 clients x 1..5 operations (kind, seed, size) + scheduler config; each run executes every operation alone (solo simulation) and then all clients concurrently (-race build).",
+    "C13": GENERIC_RULE + "Plan = arena seed + history of 5..40 calls (a random subset of 37 call kinds incl. 8 failing kinds) over shared argument objects + scheduler config; fingerprints of configuration, package-level variables and arena are compared after every call.",
+    "C19": GENERIC_RULE + "Plan = (list length, aliasing pattern, representation mix, identity share, position of an un-normalisable element) + scheduler config (CPU count, map-order shuffle).",
+    "C20": GENERIC_RULE + "Plan = (n, m or default, per-invocation delay budget) + scheduler config; thorough stage 'grid' walks every cell of n in 0..2048 x m in 1..300 once.",
+}
+ASSUME = {
+    "C01": ["commitments are the library's own Commit(f) (C05 is not claimed)"],
+    "C02": ["the reference verifier (verif/refmodel) is correct; it reproduces every cross-implementation vector of the repository at setup",
+            "honest all-zero traffic is exempt from the 'modified message must be rejected' cross-check (its proof is valid for every all-zero statement)"],
+    "C03": ["the reference prover (verif/refmodel) is correct; it reproduces the repository's byte-exact IPA and multiproof vectors at setup"],
+    "C09": ["reference scalar multiplication over known discrete logs; banderwagon.Element has layout {X,Y,Z} (verified at worker start)"],
+    "C10": ["reference decoder defines the acceptance set; readers never return (0, nil); a failed writer either stays failed or fails once"],
+    "C12": ["a data race is only seen between accesses executed in a sampled run; sync.Pool hand-overs inside math/big may hide a race in a given run"],
+    "C13": ["fingerprints cover memory reachable from the configuration, the generated VerifGlobals() of every go-ipa package and the arena; sync.* internals are skipped"],
+    "C19": [], "C20": [],
+}
 
 
 # ---------------------------------------------------------------------------
@@ -422,7 +445,7 @@ def write_evidence(pid, tier, seed, conf, agg, built, wall, replays):
         coverage=dict(
             evaluations=agg["runs"],
             distinct_nontrivial=len(agg["keys"]),
-            rule=RULES.get(pid, "") or "one evaluation = one simulated run (a plan drawn from VERIF_SEED and the run index, executed on the instrumented copy of the current tree); non-trivial = at least two tasks were runnable at some scheduler step or at least one injected fault fired; distinct = distinct (scheduler trace hash, workload/config shape) pairs among the non-trivial runs",
+            rule=RULES.get(pid, GENERIC_RULE),
             samples=agg["samples"][:6],
             nontrivial_runs=agg["nontrivial"],
             scheduler_steps=agg["steps"],
